@@ -35,6 +35,22 @@ class Unsupported(Exception):
     pass
 
 
+ATTRS = {"admmargs": {"window_size": "int", "num_data_series": "int", "rho": "scalar", "sparsity_weight": "lam"}}
+
+
+def default_value(t):
+    """the value a variable takes after a failed call inside a loop (never observable: the error is thrown later)"""
+    if t == "int":
+        return "(0 : Int)"
+    if t == "scalar":
+        return "(0 : α)"
+    if isinstance(t, tuple) and t[0] == "list":
+        return "[]"
+    if isinstance(t, tuple) and t[0] == "tuple":
+        return "(" + ", ".join(default_value(x) for x in t[1:]) + ")"
+    raise Unsupported(f"no default for {t}")
+
+
 # ------------------------------------------------------------------------------------------ types
 # type tags: 'int' 'rat' 'bool' 'scalar' 'str' ('list', T) ('tuple', T1, T2, ...) 'arr1' 'arr2' 'arr2int' 'sov'
 def lean_type(t):
@@ -54,6 +70,10 @@ def lean_type(t):
         return "Py.Arr2 Int"
     if t == "sov":
         return "Py.ScalarOrVec α"
+    if t == "lam":
+        return "Py.Lambda α"
+    if t == "admmargs":
+        return "Py.ADMMArgs α"
     if isinstance(t, tuple) and t[0] == "list":
         return f"List ({lean_type(t[1])})"
     if isinstance(t, tuple) and t[0] == "tuple":
@@ -95,6 +115,11 @@ SPECS = [
     dict(file="admm/solver.py", func="soft_threshold_prox",
          params={"scaled_point_sum": "scalar", "lambda_sum": "scalar", "rho_times_r": "scalar"}, ret="scalar",
          field=True),
+    dict(file="admm/solver.py", func="compute_lambda_sum",
+         params={"lambda_parameter": "lam", "block_id": "int", "row": "int", "column": "int", "block_size": "int",
+                 "num_blocks": "int"}, ret="scalar", field=True),
+    dict(file="admm/solver.py", func="admm_update_z",
+         params={"args": "admmargs", "u": "arr1", "x": "arr1"}, ret="arr1", field=True),
     dict(file="likelihood.py", func="point_log_likelihood_fast",
          params={"point": "arr1", "mu_i": "arr1", "theta_i": "arr2", "log_det_theta": "scalar", "window_size": "int",
                  "num_data_series": "int"}, ret="scalar", field=True, consts=["log2pi"]),
@@ -158,6 +183,19 @@ def contains_assert(stmts):
     return any(isinstance(n, ast.Assert) for s in stmts for n in ast.walk(s))
 
 
+def called_names(nodes):
+    out = set()
+    for s_ in nodes:
+        for n in ast.walk(s_):
+            if isinstance(n, ast.Call):
+                f = n.func
+                if isinstance(f, ast.Name):
+                    out.add(f.id)
+                elif isinstance(f, ast.Attribute):
+                    out.add(f.attr)
+    return out
+
+
 def used_names(nodes):
     return {n.id for s in nodes for n in ast.walk(s) if isinstance(n, ast.Name)}
 
@@ -192,6 +230,7 @@ class FuncTranslator:
         self.env = dict(spec["params"])
         self.may_raise = False
         self.uses_ok = False
+        self.in_err_loop = False
         self.tmp = 0
 
     # ---- expressions: returns (lean text, type)
@@ -256,6 +295,13 @@ class FuncTranslator:
                 s, t = self.expr(e.value)
                 if t in ("arr2", "arr2int"):
                     return f"(Py.Arr2.shape0 {s}, Py.Arr2.shape1 {s})", ("tuple", "int", "int")
+            if e.attr == "size":
+                s, t = self.expr(e.value)
+                if t == "arr1":
+                    return f"(Py.Arr1.size {s})", "int"
+            if isinstance(e.value, ast.Name) and self.env.get(e.value.id) in ATTRS \
+                    and e.attr in ATTRS[self.env[e.value.id]]:
+                return f"{e.value.id}.{e.attr}", ATTRS[self.env[e.value.id]][e.attr]
             raise Unsupported(f"attribute {e.attr}")
         if isinstance(e, ast.Call):
             return self.call(e)
@@ -431,6 +477,9 @@ class FuncTranslator:
             s, t = self.expr(node.value)
             if t in ("arr2", "arr2int"):
                 return [f"(Py.Arr2.shape0 {s})", f"(Py.Arr2.shape1 {s})"]
+        s, t = self.expr(node)
+        if t == "int":
+            return [s]
         raise Unsupported("shape argument")
 
     def call(self, e):
@@ -511,6 +560,27 @@ class FuncTranslator:
                     return f"(Py.Arr2.const {dims[0]} {dims[1]} ({fill} : Int))", "arr2int"
                 return f"(Py.Arr2.const {dims[0]} {dims[1]} ({fill} : α))", "arr2"
             raise Unsupported("array rank")
+        if name == "np.sum" and len(args) == 1 and not kw and isinstance(args[0], ast.Subscript):
+            base, bt = self.expr(args[0].value)
+            sl = args[0].slice
+            if bt == "arr1":
+                i, it = self.expr(sl)
+                if it == ("list", "int"):
+                    return f"(Py.Arr1.sumAt {base} {i})", "scalar"
+            if bt == "arr2" and isinstance(sl, ast.Tuple) and len(sl.elts) == 2:
+                i, it = self.expr(sl.elts[0])
+                j, jt = self.expr(sl.elts[1])
+                if it == ("list", "int") and jt == ("list", "int"):
+                    return f"(Py.Arr2.sumAt {base} {i} {j})", "scalar"
+            raise Unsupported("np.sum of this indexing")
+        if name == "float" and len(args) == 1 and not kw:
+            s, t = self.expr(args[0])
+            if t == "scalar":
+                return s, t
+            raise Unsupported("float() of " + str(t))
+        if name not in self.known and "." in name and name.split(".")[-1] in self.known \
+                and name.split(".")[0] in ("unique_values",):
+            name = name.split(".")[-1]
         if name == "np.vstack" and len(args) == 1 and not kw:
             a, at = self.expr(args[0])
             if at == ("list", "arr2"):
@@ -634,10 +704,15 @@ class FuncTranslator:
         if isinstance(target, ast.Name):
             v, t = self.expr(value)
             if isinstance(v, tuple):
-                if not top:
-                    raise Unsupported("raising call below the function level")
                 self.may_raise = True
                 self.env[target.id] = t
+                if not top:
+                    if not self.in_err_loop:
+                        raise Unsupported("raising call below the function level")
+                    self.tmp += 1
+                    tk = f"t_{self.tmp}"
+                    return [f"{pad}let {tk} := {v[1]}", f"{pad}let err_ := Py.firstErr err_ {tk}",
+                            f"{pad}let {target.id} := Py.okOr {tk} {default_value(t)}"]
                 return [f"{pad}let {target.id} ← {v[1]}"]
             if isinstance(t, tuple) and t[0] == "list" and t[1] is None:
                 self.env[target.id] = t
@@ -645,12 +720,22 @@ class FuncTranslator:
             self.env[target.id] = t
             return [f"{pad}let {target.id} := {v}"]
         if isinstance(target, ast.Tuple):
-            v, t = self.pure_expr(value)
+            v, t = self.expr(value)
             if not (isinstance(t, tuple) and t[0] == "tuple" and len(t) - 1 == len(target.elts) == 2):
                 raise Unsupported("tuple assignment")
             self.tmp += 1
             tmp = f"t_{self.tmp}"
-            out = [f"{pad}let {tmp} := {v}"]
+            if isinstance(v, tuple):                 # a raising call
+                self.may_raise = True
+                if top:
+                    out = [f"{pad}let {tmp} ← {v[1]}"]
+                elif self.in_err_loop:
+                    out = [f"{pad}let {tmp}e := {v[1]}", f"{pad}let err_ := Py.firstErr err_ {tmp}e",
+                           f"{pad}let {tmp} := Py.okOr {tmp}e {default_value(t)}"]
+                else:
+                    raise Unsupported("raising call below the function level")
+            else:
+                out = [f"{pad}let {tmp} := {v}"]
             for k, (el, ty) in enumerate(zip(target.elts, t[1:])):
                 if not isinstance(el, ast.Name):
                     raise Unsupported("nested tuple target")
@@ -714,9 +799,17 @@ class FuncTranslator:
         has_assert = contains_assert(s.body)
         if has_assert:
             carried = carried + ["ok_"]
+        raising = [n for n in called_names(s.body) if n in self.known and self.known[n][2]]
+        outermost_err = False
+        if raising:
+            carried = carried + ["err_"]
+            outermost_err = not self.in_err_loop
         if not carried:
             raise Unsupported("loop without effect")
         saved = dict(self.env)
+        saved_err = self.in_err_loop
+        if raising:
+            self.in_err_loop = True
         binder, prelude = self.bind_target(s.target, itt[1], "it_")
         self.tmp += 1
         st = f"s_{self.tmp}"
@@ -727,8 +820,9 @@ class FuncTranslator:
         inner += self.block(s.body, ind + 2, tail_vars=carried)
         newenv = dict(self.env)
         self.env = saved
+        self.in_err_loop = saved_err
         for n in carried:
-            if n != "ok_" and newenv.get(n) != saved.get(n):
+            if n not in ("ok_", "err_") and newenv.get(n) != saved.get(n):
                 # e.g. an empty list that got its element type inside the loop
                 if isinstance(saved.get(n), tuple) and saved[n][0] == "list" and saved[n][1] is None:
                     self.env[n] = newenv[n]
@@ -737,6 +831,8 @@ class FuncTranslator:
         lines = []
         if has_assert:
             lines.append(f"{pad}let ok_ := true")
+        if outermost_err:
+            lines.append(f"{pad}let err_ := (none : Option String)")
         self.tmp += 1
         res = f"r_{self.tmp}"
         lines.append(f"{pad}let {res} := Py.forEach {it} {self.tuple_of(carried)} (fun {binder} {st} =>")
@@ -747,6 +843,13 @@ class FuncTranslator:
             if not top:
                 raise Unsupported("assert in a nested loop")
             lines.append(f"{pad}if !ok_ then throw \"AssertionError\"")
+            self.may_raise = True
+        if outermost_err:
+            if not top:
+                raise Unsupported("raising call in a loop that is not at the function level")
+            lines.append(f"{pad}match err_ with")
+            lines.append(f"{pad}| some e_ => throw e_")
+            lines.append(f"{pad}| none => pure ()")
             self.may_raise = True
         return lines
 
@@ -798,6 +901,41 @@ class FuncTranslator:
         parts = [f"(({x} : Int) : α)" if x == n else x for x in names]
         return pad + self.tuple_of(parts)
 
+    def type_dispatch(self, stmts):
+        """`if isinstance(P, <scalar types>) …: A` / `if isinstance(P, np.ndarray): B` / `raise …` on a parameter `P` that is
+        a scalar-or-array sparsity weight  ->  `match P with | .scalar P => A | .matrix P => B` (the final `raise` is for
+        other Python types, which the parameter's type here does not contain)."""
+        body = [s for s in stmts if not (isinstance(s, ast.Expr) and isinstance(s.value, ast.Constant))]
+        if len(body) != 3 or not (isinstance(body[0], ast.If) and isinstance(body[1], ast.If) and isinstance(body[2], ast.Raise)):
+            return None
+        if body[0].orelse or body[1].orelse:
+            return None
+
+        def isinstance_target(test):
+            names = set()
+            kinds = set()
+            for n in ast.walk(test):
+                if isinstance(n, ast.Call) and isinstance(n.func, ast.Name) and n.func.id == "isinstance" and len(n.args) == 2 \
+                        and isinstance(n.args[0], ast.Name):
+                    names.add(n.args[0].id)
+                    kinds.add("matrix" if "ndarray" in ast.dump(n.args[1]) else "scalar")
+                elif isinstance(n, ast.Call):
+                    return None, None
+            return (names.pop() if len(names) == 1 else None), kinds
+        p1, k1 = isinstance_target(body[0].test)
+        p2, k2 = isinstance_target(body[1].test)
+        if p1 is None or p1 != p2 or self.env.get(p1) != "lam" or k1 != {"scalar"} or k2 != {"matrix"}:
+            return None
+        lines = [f"  match {p1} with"]
+        saved = dict(self.env)
+        for ctor, typ, branch in ((".scalar", "scalar", body[0].body), (".matrix", "arr2", body[1].body)):
+            self.env = dict(saved)
+            self.env[p1] = typ
+            lines.append(f"  | {ctor} {p1} =>")
+            lines += self.block(branch, 2, top=True)
+        self.env = saved
+        return lines
+
     # ---- whole function
     def translate(self):
         fd = self.fdef
@@ -807,7 +945,9 @@ class FuncTranslator:
         if fd.args.vararg or fd.args.kwarg or fd.args.kwonlyargs or fd.args.defaults:
             raise Unsupported("parameter form")
         self.ret_type = None
-        body = self.block(fd.body, 1, top=True)
+        body = self.type_dispatch(fd.body)
+        if body is None:
+            body = self.block(fd.body, 1, top=True)
         if self.ret_type is None:
             raise Unsupported("no return")
         if self.ret_type != self.spec["ret"]:
@@ -847,6 +987,21 @@ def _parse_for(t, tok, var):
     if t == ("list", "arr2"):
         return (f"let {var} ← parseListWith parseRatss? \"|\" {tok}",
                 f"({var}.map (fun m => (Py.Arr2.ofLists m ((m.headD []).length) : Py.Arr2 Rat)))")
+    if t == "lam":
+        return (f"let {var} ← (match {tok}.splitOn \":\" with\n"
+                f"        | [\"s\", v] => (parseRat? v).map Py.Lambda.scalar\n"
+                f"        | [\"m\", v] => (parseRatss? v).map (fun l => Py.Lambda.matrix (Py.Arr2.ofLists l ((l.headD []).length)))\n"
+                f"        | _ => none)", var)
+    if t == "admmargs":
+        return (f"let {var} ← (match {tok}.splitOn \"~\" with\n"
+                f"        | [w, n, r, l] => do\n"
+                f"            let w ← parseInt? w; let n ← parseInt? n; let r ← parseRat? r\n"
+                f"            let l ← (match l.splitOn \":\" with\n"
+                f"              | [\"s\", v] => (parseRat? v).map Py.Lambda.scalar\n"
+                f"              | [\"m\", v] => (parseRatss? v).map (fun l => Py.Lambda.matrix (Py.Arr2.ofLists l ((l.headD []).length)))\n"
+                f"              | _ => none)\n"
+                f"            pure (Py.ADMMArgs.mk w n r l)\n"
+                f"        | _ => none)", f"({var} : Py.ADMMArgs Rat)")
     if t == "sov":
         return (f"let {var} ← (match {tok}.splitOn \":\" with\n"
                 f"        | [\"s\", v] => (parseRat? v).map Py.ScalarOrVec.scalar\n"
